@@ -296,6 +296,11 @@ def check_sequences(db, rep):
         word = hooksU.as_word(U)
         # U = F_n ... F_1 (left multiplication): the factor applied first is the last element of the word
         factors = list(reversed(word))
+        if d >= 2 and not factors:
+            # the matrix is not built as a product of factor matrices (rows updated directly, say): this rule reads the
+            # product structure and cannot judge such a construction - undecided, not a violation
+            rep.break_('GetTransformationMatrix/%d: the mixing matrix is not built as a product of plane-rotation factor matrices; rule G.umat cannot judge this construction' % d)
+            continue
         order = []
         ok_f = True
         for fa in factors:
